@@ -5,6 +5,7 @@ from __future__ import annotations
 import logging
 from typing import TYPE_CHECKING, Any
 
+from xknx.cemi.const import MAX_NPDU_LENGTH
 from xknx.core.value_reader import ValueReader
 from xknx.dpt import DPTArray, DPTBase, DPTBinary
 from xknx.exceptions import ConversionError
@@ -101,16 +102,22 @@ def _parse_payload(
     value: Any,
     value_type: DPTParsable | type[DPTBase] | None = None,
 ) -> DPTBinary | DPTArray:
-    if isinstance(value, DPTArray | DPTBinary):
+    if isinstance(value, DPTBinary):
         return value
-    if transcoder := _parse_dpt(value_type):
+    if isinstance(value, DPTArray):
+        payload = value
+    elif transcoder := _parse_dpt(value_type):
         return transcoder.to_knx(value)
-    if isinstance(value, int):
+    elif isinstance(value, int):
         return DPTBinary(value)
-    try:
-        payload = DPTArray(value)
-    except TypeError as err:
-        raise ConversionError("Invalid raw payload", value=str(value)) from err
+    else:
+        try:
+            payload = DPTArray(value)
+        except TypeError as err:
+            raise ConversionError("Invalid raw payload", value=str(value)) from err
+    # APCI octet + data octets shall fit a single frame
+    if not 0 < len(payload.value) < MAX_NPDU_LENGTH:
+        raise ConversionError("Invalid raw payload length", value=str(value))
     for octet in payload.value:
         if not isinstance(octet, int) or not 0 <= octet <= 255:
             raise ConversionError("Invalid raw payload", value=str(value))
